@@ -9,7 +9,7 @@
 From Coq Require Import List ZArith.
 From TK Require Import FibHeap_Model FibHeap_Dn FibHeap_SpecExec FibHeap_Proof_Basics
   FibHeap_Proof_Degree FibHeap_Proof_Decrease FibHeap_Proof_Extract FibHeap_Proof_Main
-  FibHeap_Proof_Refuted FibHeap_State HeapState FibHeap_Proof_Many.
+  FibHeap_Proof_Refuted FibHeap_State HeapState FibHeap_Proof_Many FibHeap_Proof_Drain.
 Import ListNotations.
 Local Open Scope Z_scope.
 
@@ -146,3 +146,29 @@ Example fh_many_nonvacuous : exists f' xs,
             (0%nat, ExtractMin); (1%nat, Decrease 0 1); (0%nat, ExtractMin); (1%nat, ExtractMin); (0%nat, ExtractMin)]
   = Ok (f', xs) /\ length (proj 0 xs) = 5%nat /\ length (proj 1 xs) = 5%nat.
 Proof. exact FibHeap_Proof_Many.many_nonvacuous. Qed.
+
+(* T8 the use Dijkstra makes of the queue: after ANY completed history (any capacity, any A[] size), n further
+   extract_min calls return keys in nondecreasing order and never return the same index twice.  Corollary of the
+   finite-map refinement; quantifies over the preceding history, which a test can only sample. *)
+Theorem fh_drain_sorted : forall cap dn ops n h' xs, 0 <= cap ->
+  run (empty_heap cap dn) (ops ++ repeat ExtractMin n) = Ok (h', xs) ->
+  Sorted.Sorted Z.le (drain_keys (skipn (length ops) xs)) /\
+  NoDup (map fst (drain_pairs (skipn (length ops) xs))).
+Proof. exact FibHeap_Proof_Drain.fh_drain_sorted. Qed.
+Print Assumptions fh_drain_sorted.
+
+(* T8' the same statement for ANY output list the specification accepts — this is what applies to the REAL heap:
+   the C16 check runs spec_run_b on the real heap's outputs, so on every history it accepts the real extract_min
+   answers of a trailing drain are sorted and index-distinct *)
+Theorem fh_accepted_drain_sorted : forall cap ops n xs,
+  spec_run_b cap [] (ops ++ repeat ExtractMin n) xs 0 = None ->
+  Sorted.Sorted Z.le (drain_keys (skipn (length ops) xs)) /\
+  NoDup (map fst (drain_pairs (skipn (length ops) xs))).
+Proof. exact FibHeap_Proof_Drain.accepted_drain_sorted. Qed.
+Print Assumptions fh_accepted_drain_sorted.
+
+Example fh_drain_nonvacuous : exists h' xs,
+  run (empty_heap 8 5) ([Insert 0 5; Insert 3 2; Insert 1 3; Insert 6 9; ExtractMin; Decrease 6 1; Insert 2 7]
+                        ++ repeat ExtractMin 5) = Ok (h', xs) /\
+  drain_keys (skipn 7 xs) = [1; 3; 5; 7].
+Proof. eexists; eexists; split; [vm_compute; reflexivity | vm_compute; reflexivity]. Qed.
